@@ -48,7 +48,10 @@ def run(R):
                     # three calls: the first ends mid-block, the second starts mid-block, crosses a block end and ends mid-block, the third shows where
                     # the context believes it is; for one start per (variant, rounds, key length) the counter is set on a context already in use
                     cut2 = 70 + 64 + 5 if n > 70 + 64 + 5 + 1 else n - 1
-                    h["ev"] = [{"op": "new"}] + pre + [{"op": "process", "x": 1, "data": data[:70]}, {"op": "process_mut", "x": 1, "data": data[70:cut2]}, {"op": "process", "x": 1, "data": data[cut2:]}]
+                    # (+ a short call inside the block and an empty one before the last: where the context stands after a call that stayed inside the block)
+                    cut3 = min(cut2 + 4, n - 1)
+                    h["ev"] = [{"op": "new"}] + pre + [{"op": "process", "x": 1, "data": data[:70]}, {"op": "process_mut", "x": 1, "data": data[70:cut2]}, {"op": "process_mut", "x": 1, "data": data[cut2:cut3]},
+                                                       {"op": "process", "x": 1, "data": []}, {"op": "process", "x": 1, "data": data[cut3:]}]
                     hs.append(h)
                     R.count((variant, rounds, kl, s), trivial=False)
                     if s == starts[1] or s == starts[-1]:
